@@ -944,3 +944,187 @@ func init() {
 }
 
 func osReadFile(name string) ([]byte, error) { return os.ReadFile(name) }
+
+// --- R-OPTOKENS: punctuation operators -------------------------------------------------------
+
+// tokenNames: value → name of the token constants of the generated parser.
+func (p *Prog) tokenNames() map[int64]string {
+	out := map[int64]string{}
+	sc := p.Pkgs[pkgParser].Types.Scope()
+	for _, n := range sc.Names() {
+		if c, ok := sc.Lookup(n).(*types.Const); ok && strings.HasSuffix(n, "_P") && c.Val().Kind() == constant.Int {
+			v, _ := constant.Int64Val(c.Val())
+			out[v] = n
+		}
+	}
+	return out
+}
+
+var ruleOpTokens = &Rule{
+	Name: "R-OPTOKENS", NeedSSA: true,
+	Doc: "the hand-written operator scanner's complete table over (first character, next character) is extracted; every punctuation operator the printer can emit (==, !=, <, <=, >, >=, &&, ||, !, +, -, *, /, %, **) is scanned to a token whose production builds the very constant that prints it; != and <> give the same token",
+	Run: func(p *Prog) *RuleOut {
+		out := newOut("R-OPTOKENS")
+		g, err := p.grammar()
+		if err != nil {
+			out.undecided("goyacc", "-", "", err.Error())
+			return out
+		}
+		lexT, _ := lookupNamed(p.Pkgs[pkgParser].Types, "lexer")
+		// the operator scanner: method (rune) (rune, rune) of lexer
+		var fn *ssa.Function
+		best := 3
+		for f := range p.AllFns {
+			if fnPkgPath(f) != pkgParser || f.Blocks == nil || f.Signature.Recv() == nil || namedOf(f.Signature.Recv().Type()) != lexT {
+				continue
+			}
+			if f.Signature.Params().Len() != 1 || f.Signature.Results().Len() != 2 {
+				continue
+			}
+			isRune := func(t types.Type) bool { b, ok := t.(*types.Basic); return ok && b.Kind() == types.Int32 }
+			if isRune(f.Signature.Params().At(0).Type()) && isRune(f.Signature.Results().At(0).Type()) && isRune(f.Signature.Results().At(1).Type()) {
+				// the one that compares its parameter with punctuation constants
+				n := 0
+				for _, b := range f.Blocks {
+					for _, ins := range b.Instrs {
+						if bo, ok := ins.(*ssa.BinOp); ok && bo.Op == token.EQL && bo.X == ssa.Value(f.Params[1]) {
+							if k, ok := constInt(bo.Y); ok && strings.ContainsRune("=<>!&|*", rune(k)) {
+								n++
+							}
+						}
+					}
+				}
+				if n > best {
+					fn, best = f, n
+				}
+			}
+		}
+		if fn == nil {
+			out.undecided("operator scanner", "-", "", "anchor unresolved: lexer method (rune) (rune, rune)")
+			return out
+		}
+		chars := []int64{'=', '>', '<', '!', '&', '|', '*', '+', '-', '/', '%', '?', 'a'}
+		chP := fn.Params[1]
+		var nextAtom string
+		tx, rows := p.extractTable(fn, nil, &TableCfg{IntDomain: func(v ssa.Value) []int64 {
+			if v == ssa.Value(chP) {
+				return chars
+			}
+			if c, ok := v.(*ssa.Call); ok && c.Call.StaticCallee() != nil && c.Call.StaticCallee().Name() == "next" {
+				return chars
+			}
+			return nil
+		}})
+		for k, ai := range tx.atoms {
+			if ai.Call != nil && ai.Call.Block() == fn.Blocks[0] {
+				nextAtom = k
+			}
+		}
+		if nextAtom == "" {
+			out.undecided("operator scanner", p.pos(fn.Pos()), fnName(fn), "look-ahead atom not found")
+			return out
+		}
+		names := p.tokenNames()
+		table := map[string]string{} // spelling → token
+		ncell := 0
+		for _, c1 := range chars {
+			for _, c2 := range chars {
+				as := Assign{chP.Name(): c1, nextAtom: c2}
+				for _, r := range rows {
+					if r.Loop != nil || len(r.Out) != 2 {
+						continue
+					}
+					tx.term(chP, r, 0)
+					ok, _ := tx.satisfied(r, as)
+					if !ok {
+						continue
+					}
+					ncell++
+					tok := tx.eval(r.Out[0], as, 0)
+					if tok.Kind != "int" {
+						continue
+					}
+					// consumed two characters iff the second result is a fresh look-ahead
+					two := r.Out[1].Kind == "atom" && r.Out[1].Atom != nextAtom
+					spelling := string(rune(c1))
+					if two {
+						spelling += string(rune(c2))
+					}
+					name, isTok := names[tok.K]
+					if !isTok {
+						name = "'" + string(rune(tok.K)) + "'"
+					}
+					if prev, ok := table[spelling]; ok && prev != name {
+						out.viol("operator "+spelling+" is scanned consistently", p.pos(fn.Pos()), fnName(fn), "scanned as "+prev+" and as "+name+" depending on what follows")
+					}
+					table[spelling] = name
+				}
+			}
+		}
+		out.Counts["scanner_cells"] = ncell
+		out.Floors["scanner_cells"] = 100
+		// printer side: punctuation names of the enums
+		n := 0
+		for _, en := range []string{"BinaryOperator", "UnaryOperator"} {
+			ei := p.A.Enums[en]
+			st, err := p.stringerTable(ei)
+			if err != nil {
+				continue
+			}
+			kind := map[string]string{"BinaryOperator": "BinaryNode", "UnaryOperator": "UnaryNode"}[en]
+			for _, c := range ei.Consts {
+				printed := st[constOf(c)]
+				if printed == "" || wordRe.MatchString(printed) {
+					continue
+				}
+				n++
+				key := fmt.Sprintf("%s prints %q", c.Name(), printed)
+				tok, ok := table[printed]
+				if !ok {
+					out.viol(key, p.pos(fn.Pos()), fnName(fn), "the operator scanner has no path producing a token for this spelling")
+					continue
+				}
+				// a production (or comp_op alternative) consuming tok that yields the constant
+				hit := false
+				for _, pr := range g.prodsBuilding(kind, constOf(c)) {
+					for _, t := range pr.Tokens {
+						if t == tok {
+							hit = true
+						}
+					}
+					// through comp_op
+					for _, s := range pr.RHS {
+						if s == "comp_op" {
+							for _, rn := range g.RuleOrder {
+								r := g.Rules[rn]
+								if r.LHS == "comp_op" && len(r.RHS) == 1 && r.RHS[0] == tok && g.ProdVals[rn] != nil && g.ProdVals[rn].Enums[constOf(c)] {
+									hit = true
+								}
+							}
+						}
+					}
+				}
+				if hit {
+					out.ok(key, p.pos(fn.Pos()), fnName(fn), printed+" → "+tok+" → a production building "+c.Name())
+				} else {
+					out.viol(key, "path/parser/grammar.y", "", "the printed operator scans to "+tok+", but no production consuming that token builds "+c.Name())
+				}
+			}
+		}
+		out.Counts["punctuation_operators"] = n
+		out.Floors["punctuation_operators"] = 12
+		if table["!="] != "" && table["!="] == table["<>"] {
+			out.ok("!= and <> are the same token", p.pos(fn.Pos()), fnName(fn), table["!="])
+		} else {
+			out.viol("!= and <> are the same token", p.pos(fn.Pos()), fnName(fn), fmt.Sprintf("!= → %q, <> → %q", table["!="], table["<>"]))
+		}
+		if table["**"] == "ANY_P" {
+			out.ok("** is the recursive-descent token", p.pos(fn.Pos()), fnName(fn), "ANY_P")
+		} else {
+			out.viol("** is the recursive-descent token", p.pos(fn.Pos()), fnName(fn), "** scans to "+table["**"])
+		}
+		return out
+	},
+}
+
+func init() { register(ruleOpTokens) }
